@@ -48,11 +48,14 @@ pub fn finalize(_tier: &str, rep: &mut Report) {
 /// table + three graph variants of one read set, reduced to comparable plain data
 struct Obs {
     table: Vec<(S, u8, u16)>,
+    /// the list of ALL distinct k-mers filter_kmers reports on request (before thresholding)
+    all: Vec<S>,
     graphs: Vec<(String, BTreeMap<BTreeSet<S>, u16>, BTreeSet<S>, GraphV<u16>)>,
 }
 
 fn observe<K: Kmer + Send + Sync>(reads: &[Read], stranded: bool, thr: usize, multipass_too: bool) -> Obs {
-    let (table, _) = count_table::<K>(reads, stranded, thr, false);
+    let (table, all_k) = count_table::<K>(reads, stranded, thr, true);
+    let all: Vec<S> = all_k.iter().map(|x| kstr(x)).collect();
     let unpruned = sorted_vec(&table);
     let tv: Vec<(S, u8, u16)> = unpruned.iter().map(|(k, (e, d))| (kstr(k), e.val, *d)).collect();
     // the same table under multi-pass memory budgets (hook MEM_UNIT = 1 byte): must not depend on the pass plan
@@ -70,7 +73,7 @@ fn observe<K: Kmer + Send + Sync>(reads: &[Read], stranded: bool, thr: usize, mu
         MEM_UNIT.with(|c| c.set(old));
         if multipass.iter().any(|v| *v != tv) {
             // encode the disagreement as an impossible table so that every comparison downstream flags it
-            return Obs { table: vec![(vec![9], 0xff, u16::MAX)], graphs: vec![] };
+            return Obs { table: vec![(vec![9], 0xff, u16::MAX)], all: vec![], graphs: vec![] };
         }
     }
     let mut pruned = unpruned.clone();
@@ -87,7 +90,7 @@ fn observe<K: Kmer + Send + Sync>(reads: &[Read], stranded: bool, thr: usize, mu
     let g3 = sharded_any::<K>(reads, stranded, thr, &cfg, &mut n, &mut so);
     let gv = view(&g3);
     graphs.push(("sharded".to_string(), payload_map(&gv), graph_kp1(&gv), gv));
-    Obs { table: tv, graphs }
+    Obs { table: tv, all, graphs }
 }
 
 pub fn run<K: Kmer + Send + Sync>(c: &GCase) -> Outcome {
@@ -105,9 +108,9 @@ pub fn run<K: Kmer + Send + Sync>(c: &GCase) -> Outcome {
     }
     if !c.stranded {
         // every key is the lexicographic minimum of the k-mer and its reverse complement
-        for (key, _, _) in &base.table {
+        for key in base.table.iter().map(|x| &x.0).chain(base.all.iter()) {
             if *key > rc(key) {
-                o.fail("key-not-canonical", format!("table key {} is larger than its reverse complement", ascii(key)));
+                o.fail("key-not-canonical", format!("reported k-mer {} is larger than its reverse complement", ascii(key)));
             }
         }
         // graphs agree with the (strand-symmetric) reference
@@ -137,6 +140,10 @@ pub fn run<K: Kmer + Send + Sync>(c: &GCase) -> Outcome {
             }
             if other.table.len() != base.table.len() {
                 o.fail("table-changes-under-flip", format!("flip mask {:b}: {} keys vs {}", mask, other.table.len(), base.table.len()));
+                continue;
+            }
+            if other.all != base.all {
+                o.fail("all-kmers-change-under-flip", format!("flip mask {:b}: the list of all distinct k-mers is {:?}, for the unflipped reads {:?}", mask, other.all.iter().map(|x| ascii(x)).collect::<Vec<_>>(), base.all.iter().map(|x| ascii(x)).collect::<Vec<_>>()));
                 continue;
             }
             for (a, b) in base.table.iter().zip(other.table.iter()) {
